@@ -33,7 +33,7 @@ CHECKS = {
          "Single faults are injected at every packet position of every exchange of each public operation (handshake and reconnect handshake included), multi-fault plans are sampled, and every run ends with one more fault-free call. Invariants I1-I4 over the client-side connection log (open / bytes / close with virtual time) decide the property: registration and identity check first on every connection, no use of a wrong-serial connection, nothing written after a delivered fault and the connection dropped before the next opens, healthy connections kept and reused without re-registration.",
          "Trusted: simulated terminal and the logging stream wrapper (harness/src/sim.rs); fault model of DESIGN.md Appendix C. Only modelled fault kinds are explored.", "7/C09"),
  "C10": ("fault_enumeration", "fault enumeration on virtual time: a stall at every packet position of every exchange (from a dry-run transcript), exhaustive read_card_timeout 0..255, proptest-sampled configurations; watchdog oracle in tokio paused time",
-         "The real Feig client runs against an in-process simulated terminal on tokio's paused clock (hook zvt_verif). For each of the six public operations a fault-free dry run yields the packet positions of all its exchanges, handshake included; a stall (silence / header then silence, once / on every attempt) is injected at each, plus stalls in the handshake of a forced reconnect and in connect(). The call must return without panicking within S(op)*20*(T+2) virtual seconds under a one-virtual-day watchdog; read_card_timeout is enumerated 0..255 including a terminal that answers t+1 s after its ack (no collapse).",
+         "The real Feig client runs against an in-process simulated terminal on tokio's paused clock (hook zvt_verif). For each of the six public operations a fault-free dry run yields the packet positions of all its exchanges, handshake included; a stall (silence / header then silence, once / on every attempt) is injected at each, plus stalls in the handshake of a forced reconnect and in connect(). The call must return without panicking within S(op)*20*3*(T+2) virtual seconds under a one-virtual-day watchdog; read_card_timeout is enumerated 0..255 including a terminal that answers t+1 s after its ack (no collapse).",
          "Trusted: tokio's paused clock and in-memory duplex streams stand in for the network; the simulated terminal (harness/src/sim.rs). A terminal trickling packets below the per-packet time-out is outside the property.", "7/C10"),
  "C11": ("exploration", "proptest generation of payload directories, block sizes and request scripts; the real upload stream runs against a scripted peer over real temporary files; reference codec decodes the client's packets",
          "Generated directories (subsets of the 21 recognised paths plus unrelated files, sizes around 0 / block / k*block, random content), block sizes 1..32768 and request scripts (announced / unannounced ids, offsets at, before and after end of file and beyond 2^31, missing fields) drive the real WriteFile stream: the announcement must list exactly the recognised files with their true sizes and the password, every good request must be answered once with its id, offset and the bit-identical file slice, a bad request must end the upload with one error and no data.",
